@@ -413,13 +413,19 @@ def run_write_case(case, rng, res, counters, y):
             parts.append(pd.DataFrame({"rid": np.arange(i * 1000, i * 1000 + n, dtype="int64"), "v": rng.standard_normal(n),
                                        "s": np.array(["q%d" % x for x in rng.integers(0, 9, n)], dtype=object),
                                        "c": pd.Categorical.from_codes(rng.integers(0, 2, n), categories=["a", "b"])}))
+            # (a second categorical whose number of labels differs from part to part - the shared metadata, made from the first part,
+            #  declares 2 - as with dask partitions or an iterable of frames)
+            nc = [2, 7, 300, 2, 40][i % 5]
+            parts[-1]["k"] = pd.Categorical.from_codes(rng.integers(0, nc, n), categories=["L%03d" % x for x in range(nc)])
         fmd = W.make_metadata(parts[0], has_nulls=True, object_encoding="utf8")
+        fmd_bytes = bytes(fmd.to_bytes())
         seq = []
         for i, p in enumerate(parts):
+            # the reference: every part written on its own against metadata nobody else has touched
+            fmd_i = W.make_metadata(parts[0], has_nulls=True, object_encoding="utf8")
             fn = os.path.join(d, "seq.%d.parquet" % i)
-            W.make_part_file(open(fn, "wb"), p, fmd.schema, fmd=fmd)
+            W.make_part_file(open(fn, "wb"), p, fmd_i.schema, fmd=fmd_i)
             seq.append(open(fn, "rb").read())
-        fmd_bytes = bytes(fmd.to_bytes())
         T = case["threads"]
         errs = []
         barrier = threading.Barrier(T)
